@@ -111,7 +111,20 @@ def shape_route(chk, site, qn, numerator, base_name, path) -> bool:
     return True
 
 
+def _shape_domain_examples():
+    """The shape domain is only consulted when a range is not a bare amax call - never on a healthy tree - so it is exercised on built-in
+    examples on every run: it must tell the reduction that keeps dim 2 of a rank-4 base from the one that folds it."""
+    def groups(src, ndim, axis):
+        return [sorted(g) for g in scales.shape_eval(ast.parse(src, mode="eval").body, ndim, axis).groups]
+    v = (groups("base.abs().flatten(0, 1).amax(dim=0, keepdim=True).unsqueeze(0)", 4, -1),
+         groups("base.abs().flatten(0, -2).amax(dim=0, keepdim=True).reshape((1,) * (base.ndim - 1) + (-1,))", 4, -1),
+         groups("torch.amax(torch.abs(base).flatten(1), dim=1).reshape((-1,) + (1,) * (base.ndim - 1))", 3, 0))
+    if v != ([[], [], [2], [3]], [[], [], [], [3]], [[0], [], []]):
+        raise AnalysisError(f"shape domain misjudges its built-in examples: {v}")
+
+
 def run(chk):
+    _shape_domain_examples()
     for k, v in RULES.items():
         chk.rule(k, v)
     repo = chk.repo
